@@ -22,7 +22,7 @@ Definition fname := list N.
 Definition listing := list (fname * list val).     (* files matched by the monitored pattern, with their lines *)
 
 Inductive srckind :=
-| SQueue (oneAtATime : bool) (default : option (list val)) (q0 : list (list val))
+| SQueue (oneAtATime : bool) (default : option (list val)) (q0 : list (option (list val)))
 | SFile (done0 : list fname).
 
 Inductive cgop := OpCogroup | OpJoin | OpLeftOuterJoin | OpRightOuterJoin | OpFullOuterJoin.
@@ -47,7 +47,11 @@ Definition parents (nd : node) : list nat :=
 Definition wf (g : graph) : Prop :=
   forall i nd, nth_error g i = Some nd -> forall p, In p (parents nd) -> (p < i)%nat.
 
-Record nstate := mkNs { ctime : Z; crdd : rv; queue : list (list val); fdone : list fname }.
+(* a queue entry is a batch (a list) or None, the placeholder the deserialiser turns into an EmptyRDD *)
+Definition qentry := option (list val).
+Definition entry_items (x : qentry) : list val := match x with Some b => b | None => [] end.
+
+Record nstate := mkNs { ctime : Z; crdd : rv; queue : list qentry; fdone : list fname }.
 
 Inductive event :=
 | EvPop (i : nat)                              (* source node i called its stream's get() *)
@@ -75,10 +79,13 @@ Definition src_get (k : srckind) (ls : listing) (s : nstate) : qitem * nstate :=
       if b =? 0 then (match dflt with None => QNone | Some d => QRdd (parallelize d None) end, s)
       else if b =? 1 then
         match queue s with
-        | x :: q' => (QList x, mkNs (ctime s) (crdd s) q' (fdone s))
+        | x :: q' => (match x with Some b => QList b | None => QNone end,
+                      mkNs (ctime s) (crdd s) q' (fdone s))
         | [] => (QNone, s)      (* get_nowait() on an empty queue: not reached, q_size > 0 here *)
         end
-      else (QList (concat (queue s)), mkNs (ctime s) (crdd s) [] (fdone s))
+      else (* all queued batches concatenated; a None entry here makes the comprehension raise
+              TypeError in the code -- outside the model's domain (never generated) *)
+           (QList (concat (map entry_items (queue s))), mkNs (ctime s) (crdd s) [] (fdone s))
   | SFile _ =>
       match filter (fun f => negb (name_in (fst f) (fdone s))) ls with
       | [] => (QNone, s)
@@ -529,3 +536,48 @@ Definition prog_total (p : list call) : Prop :=
   forall k c, nth_error p k = Some c ->
     call_total c /\
     forall s, In s (call_args c) -> forall c', nth_error p s = Some c' -> is_action c' = false.
+
+(* ---------- the graph grows: streams and actions registered after start() ----------
+   ssc._dstreams is appended to whenever a DStream is created, also after start(); the callback
+   iterates the list as it is at each firing.  A history is therefore a sequence of ticks and
+   registrations; a newly registered node starts with _current_time = 0.0 and no RDD. *)
+Definition extend_state (st : state) (new : list node) : state :=
+  mkSt (ns st ++ map init_node new) (log st).
+
+Inductive hevent :=
+| HTick (t : Z) (env : nat -> listing)
+| HReg (new : list node).
+
+Fixpoint run_events (g : graph) (st : state) (h : list hevent) : option (graph * state) :=
+  match h with
+  | [] => Some (g, st)
+  | HTick t env :: h' =>
+      match tick g env t st with
+      | Some st' => run_events g st' h'
+      | None => None
+      end
+  | HReg new :: h' => run_events (g ++ new) (extend_state st new) h'
+  end.
+
+Fixpoint spec_events (g : graph) (st : state) (h : list hevent) : graph * state :=
+  match h with
+  | [] => (g, st)
+  | HTick t env :: h' => spec_events g (tick_spec g env t st) h'
+  | HReg new :: h' => spec_events (g ++ new) (extend_state st new) h'
+  end.
+
+Fixpoint ev_increasing (c : Z) (h : list hevent) : Prop :=
+  match h with
+  | [] => True
+  | HTick t _ :: h' => c < t /\ ev_increasing t h'
+  | HReg _ :: h' => ev_increasing c h'
+  end.
+
+(* every graph reached along the history is well formed and never takes the early return *)
+Fixpoint graphs_ok (g : graph) (h : list hevent) : Prop :=
+  wf g /\ always_live g /\
+  match h with
+  | [] => True
+  | HTick _ _ :: h' => graphs_ok g h'
+  | HReg new :: h' => graphs_ok (g ++ new) h'
+  end.
